@@ -88,7 +88,15 @@ inline void furnishFile(nix::File &f) {
     pa2.addSource(pb.createSource("p_source", "t"));
     nix::Section s = f.createSection("zz_section", "t");
     s.createProperty("zz_prop", nix::Variant(1.5));
-    s.createSection("zz_sub", "t");
+    nix::Section sub = s.createSection("zz_sub", "t");
+    nix::Section s2 = f.createSection("zz_section2", "t");
+    sub.link(s2);
+    s2.link(s);
+    b.metadata(s);
+    a2.metadata(sub);
+    tg.metadata(s2);
+    mt.metadata(s);
+    root.metadata(sub);
 }
 
 
